@@ -163,6 +163,9 @@ MUTANTS = [
 
 # mutants that turned out not to change any behaviour a property speaks about (kept for the record)
 EQUIVALENT = {
+    'embed-sources-overlay-order': 'the two maps never share a key (a name on both sides is rejected before, forwarded star names are popped): no difference in 10^6 embeds of U({a,b,c},2) squared',
+    'merge-keep-varargs-after-absorbing-positional': 'only decides WHICH of the two *args survives (its name and whom it is credited to); both answers satisfy C08 (the credited callable declares a star parameter of that name) and no property speaks about the choice: 30672 of 10^6 merges differ, all in that respect only',
+    'merge-unmatched-kwo-keeps-varkwargs': 'as above for **kwargs: 99432 of 10^6 merges differ, only in the name / credit of the surviving **kwargs',
     'sig-eq-ignores-plain': 'returning NotImplemented makes Python try the reflected plain Signature.__eq__, which gives the same answer',
     'retrieval-catches-too-much': 'swallowing every exception of discovery only makes retrieval fall back more often: C07 (totality) and C05 (plain signature is always admitted) are not violated',
     'poktranslator-insert-off-by-one': 'at pos == len(args) inserting positionally and leaving the value in kwargs bind the same parameter',
